@@ -7,8 +7,8 @@
    less) as [rel], unary functions as [fn1]; the harness decodes the same encodings into Go
    closures.  Maps and sets produced by the code are recorded sorted by key; the model's
    association lists are sorted the same way before the comparison.  For calls whose result
-   the documentation leaves open (ReverseSingle with duplicate values; the xrand functions,
-   whose oracle is not observable) check_M checks membership in the set of results the model
+   the documentation leaves open (ReverseSingle with duplicate values; xsort.Slice, which need not
+   be stable; the xrand functions, whose oracle is not observable) check_M checks membership in the set of results the model
    allows instead of equality. *)
 From Juniper Require Import Common.Base Pure.Config Pure.Slices Pure.Sort Pure.Maps Pure.Misc Pure.Rand.
 
@@ -66,6 +66,8 @@ Inductive pcall :=
 | OReverse (r : rel) (a b : Z) | OLessCompare (r : rel) (a b : Z)
 | OOrderedLess (a b : Z)
 | OSliceIsSorted (r : rel) (x : list Z)
+| OSlice (r : rel) (x : list Z)                           (* observation: x afterwards *)
+| OSliceStable (r : rel) (x : list Z)
 | OSearch (r : rel) (x : list Z) (item : Z)
 | OMerge (r : rel) (ins : list (list Z))
 | OMergeSlices (r : rel) (outcap : Z) (ins : list (list Z))
@@ -166,6 +168,9 @@ Definition eval_call (c : pcall) : pres :=
   | OLessCompare r a b => RInt (less_compare (rel_fn r) a b)
   | OOrderedLess a b => RBool (ordered_less a b)
   | OSliceIsSorted r x => RBool (slice_is_sorted (rel_fn r) x)
+  (* Slice is not stable: the stable result stands in; check_M accepts every allowed result *)
+  | OSlice r x => RList (slice_stable (rel_fn r) x)
+  | OSliceStable r x => RList (slice_stable (rel_fn r) x)
   | OSearch r x item => RInt (search (rel_fn r) x item)
   | OMerge r ins => of_res RList (merge (rel_fn r) ins)
   | OMergeSlices r outcap ins => of_res (fun p => RListB (fst p) (snd p)) (merge_slices (rel_fn r) outcap ins)
@@ -284,6 +289,10 @@ Definition check_M (cr : pcall * pres) : bool :=
       list_eqb (map fst res) (sort_z (map fst rm)) &&
       forallb (fun p => match find (fun q => fst q =? fst p) rm with
                         | Some q => mem (snd p) (snd q) | None => false end) res
+  | OSlice r x, RList res =>
+      (* "not guaranteed to be stable": any sorted permutation of x, i.e. the model's result up
+         to the order inside classes of equivalent items (theorem C19_slice_spec) *)
+      slice_allowed (rel_fn r) x res
   | XSample n k _, RList res => if k <? 0 then false else if n <? 0 then (match res with [] => true | _ => false end)
                                 else sample_possible n k res
   | XSampleSlice a k _, RList res => if k <? 0 then false else sample_items_possible a k res
@@ -305,6 +314,9 @@ Example check_M_computes :
      (SRemove [1; 2; 3] (-1) 0, RPanic);
      (OMerge (RKeyLt 10) [[10; 21; 30]; []; [11; 12; 35]; [5]], RList [5; 10; 11; 12; 21; 35; 30]);
      (OMinK (RKeyLt 1) [5; 3; 9; 1; 7; 3] 3, RList [1; 3; 3]);
+     (OSliceStable (RKeyLt 10) [31; 12; 30; 11; 32; 10], RList [12; 11; 10; 31; 30; 32]);
+     (OSliceStable (RKeyLt (-10)) [31; 12; 30; 11; 32; 10], RList [31; 30; 32; 12; 11; 10]);
+     (OSlice (RKeyLt 10) [31; 12; 30; 11; 32; 10], RList [10; 12; 11; 32; 31; 30]);
      (MUnion [[3; 1]; []; [2; 3]], RList [1; 2; 3]);
      (MReverseSingle [(1, 7); (2, 7); (3, 8)], RMapB [(7, 1); (8, 3)] false);
      (NAbs 8 (-128), RPanic); (NAbs 8 (-127), RInt 127);
@@ -312,3 +324,11 @@ Example check_M_computes :
      (XSample 10 3 1, RList [7; 0; 4]); (XShuffle [1; 2; 3] 5, RList [3; 1; 2]);
      (XTrace 0 10 [] 3 [DSkip 1 0; DSkip 0 2; DSkip 2 1] [(2, 0)], RList [5; 8; 4])] = true.
 Proof. vm_compute. reflexivity. Qed.
+
+(* SliceStable is compared exactly (an unstable result is a disagreement), Slice is not *)
+Example check_M_sort_rejects :
+  check_M (OSliceStable (RKeyLt 10) [31; 12; 30], RList [12; 30; 31]) = false /\
+  check_M (OSlice (RKeyLt 10) [31; 12; 30], RList [12; 30; 31]) = true /\
+  check_M (OSlice (RKeyLt 10) [31; 12; 30], RList [31; 12; 30]) = false /\
+  check_M (OSlice (RKeyLt 10) [31; 12; 30], RList [12; 30; 30]) = false.
+Proof. vm_compute. repeat split; reflexivity. Qed.
